@@ -1190,6 +1190,7 @@ func (s *decScope) ruleDV(rule string) {
 		// error values produced by Validate calls, closed under phi
 		errVals := map[ssa.Value]*ssa.Call{}
 		validated := map[*ssa.Store]bool{}
+		preValidated := map[*ssa.Store]*ssa.Call{} // the value was validated before it is stored
 		for _, b := range fn.Blocks {
 			for _, ins := range b.Instrs {
 				call, ok := ins.(*ssa.Call)
@@ -1208,6 +1209,9 @@ func (s *decScope) ruleDV(rule string) {
 					}
 					if arg == st.Val && instrDominates(st, call) {
 						validated[st] = true
+					}
+					if arg == st.Val && !validated[st] && instrDominates(call, st) {
+						preValidated[st] = call
 					}
 				}
 			}
@@ -1230,6 +1234,49 @@ func (s *decScope) ruleDV(rule string) {
 		for i, st := range stores {
 			fa := st.Addr.(*ssa.FieldAddr)
 			key := fmt.Sprintf("%s store#%d to %s", qname(fn), i+1, fieldOf(fa).Name())
+			if call := preValidated[st]; call != nil && !validated[st] {
+				// the store must lie behind the no-error edge of a test of this
+				// call's error: with those edges removed it is unreachable from the call
+				reach := map[*ssa.BasicBlock]bool{}
+				stack := []*ssa.BasicBlock{call.Block()}
+				for len(stack) > 0 {
+					b := stack[len(stack)-1]
+					stack = stack[:len(stack)-1]
+					if reach[b] {
+						continue
+					}
+					reach[b] = true
+					var skip *ssa.BasicBlock
+					if ifi, ok := b.Instrs[len(b.Instrs)-1].(*ssa.If); ok && len(b.Succs) == 2 {
+						if be, ok := ifi.Cond.(*ssa.BinOp); ok && (be.Op == token.NEQ || be.Op == token.EQL) {
+							var ev ssa.Value
+							if isNilConst(be.Y) {
+								ev = be.X
+							} else if isNilConst(be.X) {
+								ev = be.Y
+							}
+							if ev != nil && errVals[ev] == call {
+								if be.Op == token.NEQ {
+									skip = b.Succs[1]
+								} else {
+									skip = b.Succs[0]
+								}
+							}
+						}
+					}
+					for _, succ := range b.Succs {
+						if succ != skip {
+							stack = append(stack, succ)
+						}
+					}
+				}
+				if st.Block() != call.Block() && !reach[st.Block()] {
+					c.ok(rule, key, st.Pos(), "the stored name passed Validate before the store: the store lies behind the no-error edge")
+				} else {
+					c.bad(rule, key, st.Pos(), "the stored name is handed to Validate, but the store is reachable without the error having been tested")
+				}
+				continue
+			}
 			if !validated[st] {
 				c.bad(rule, key, st.Pos(), "type name stored into a property without a later Validate call on it: an unknown name reaches the panicking defaults of Size/Parse/DecodeBinary")
 				continue
